@@ -16,7 +16,15 @@ VARIANTS = {
     "quant": {"best_effort_memory_usage_reduction": True},
     "compressed": {"compression_rank": 1, "block_size": 8},
     "reuse": {"reuse_preconditioner": True, "eigh": True},
+    # frequent directions: the only root that reads the previous
+    # preconditioner of its own replica slice
+    "fd": {"compression_rank": 2, "block_size": 8,
+           "frequent_directions": True, "reuse_preconditioner": True},
+    # the accept/keep decision is taken from gathered diagnostics even when
+    # they are not stored
+    "nometrics": {"generate_training_metrics": False},
 }
+EVENTS = ["gA", "gB", "gBig1"]   # gBig1: first leaf times 2^60 (its root fails)
 
 
 def tree_with_n_stats(n, compressed=False):
@@ -44,9 +52,11 @@ def plan(tier, seed):
   tasks = []
   for var in VARIANTS:
     for n in Ns:
-      if tier == "quick" and var in ("reuse",) and n not in (3, 5):
+      if tier == "quick" and var in ("reuse", "fd", "nometrics") and \
+          n not in (3, 5):
         continue
-      for x64 in ([True] if tier == "quick" and n not in (3, 5)
+      for x64 in ([False] if var == "fd" else   # FD mixes dtypes under x64
+                  [True] if tier == "quick" and n not in (3, 5)
                   else [True, False]):
         tasks.append({"name": "pmap/%s/N%d/%s" % (var, n, "f64" if x64
                                                    else "f32"),
@@ -80,7 +90,7 @@ def histories(depth):
   out = [()]
   frontier = [()]
   for _ in range(depth):
-    frontier = [h + (e,) for h in frontier for e in ("gA", "gB")]
+    frontier = [h + (e,) for h in frontier for e in EVENTS]
     out += frontier
   return out
 
@@ -140,8 +150,13 @@ def run_task(task):
   acc = Acc(task["name"])
   var = task["variant"]
   cfg = dict(VARIANTS[var], best_effort_shape_interpretation=False)
-  shapes = tree_with_n_stats(task["n"], compressed=(var == "compressed"))
+  shapes = tree_with_n_stats(task["n"], compressed=(var in ("compressed",
+                                                            "fd")))
   alpha = ds.grad_trees(shapes, ["gA", "gB"], (0, 4))
+  first = sorted(shapes)[0]
+  alpha["gBig1"] = dict(alpha["gA"])
+  alpha["gBig1"][first] = (alpha["gA"][first] *
+                           np.float32(2.0**60)).astype(np.float32)
   hists = histories(task["depth"])
   sigbase = "C13|" + task["name"]
   # float64 roots agree to float32 rounding across batch shapes; float32
